@@ -214,10 +214,21 @@ pub fn classes_for(cfg: &CuckooCfg, universe: &[u64], rep: &mut Report, prop: &s
     match guarded(|| discover(&|| c.make(), universe, bound)) {
         Ok(Ok(cls)) => Some(cls),
         Ok(Err(e)) => {
+            // diagnostics: where does every key of the universe land in an empty filter?
+            let placement: Vec<Value> = universe
+                .iter()
+                .map(|k| {
+                    let mut f = cfg.make();
+                    let _ = Flt::insert(&mut f, *k);
+                    let slots = f.verif_slots();
+                    let pos = slots.iter().position(|s| *s != 0);
+                    json!({"key": k, "slot": pos, "fingerprint": pos.map(|p| slots[p])})
+                })
+                .collect();
             rep.violation(
                 format!("{}/{}", prop, e.signature()),
                 format!("{}: class discovery failed: {:?}", cfg.label(), e),
-                json!({"config": cfg, "detail": e.witness()}),
+                json!({"config": cfg, "detail": e.witness(), "universe_size": universe.len(), "placement_in_empty_filter": placement}),
             );
             None
         }
